@@ -11,7 +11,7 @@ from . import verusgen
 from .rsx import ExtractionError
 
 VERIF = os.path.dirname(os.path.dirname(os.path.abspath(__file__)))
-TEMPLATES = [os.path.join(VERIF, 'contracts', 'verus', 'lib.vt')]
+TEMPLATES = [os.path.join(VERIF, 'contracts', 'verus', f) for f in ('lib.vt', 'iter.vt', 'drain.vt', 'tail.vt')]
 RLIMIT = 60
 
 # built-in obligation classes -> properties they serve
@@ -257,9 +257,15 @@ def _count_obligations(air, gen):
     clauses = {}
     text_lines = gen.text.split('\n')
     by_fn = {}
+    def qual(e):
+        key = e['fn']
+        if '::' in key:
+            ty = key.rsplit('::', 1)[0].split(' for ')[-1].lstrip('&')
+            return ty + '::' + e['verus_name']
+        return e['verus_name']
     for idx, e in enumerate(gen.linemap):
         if e.get('section') == 'spec' and e.get('fn'):
-            by_fn.setdefault(e['verus_name'], []).append(text_lines[idx])
+            by_fn.setdefault(qual(e), []).append(text_lines[idx])
     for vn, lines in by_fn.items():
         clauses[vn] = _split_clauses(lines)
     cur = None
@@ -267,7 +273,7 @@ def _count_obligations(air, gen):
     last_was_post = False
     for m in re.finditer(r';; Function-Def (\S+)|\(assert\s*\n\s*\(("[^)]*)\)\s*\n\s*\(([^\n]*)\)', air):
         if m.group(1):
-            cur = m.group(1).split('::')[-1]
+            cur = m.group(1).split('::', 1)[1] if '::' in m.group(1) else m.group(1)
             res.setdefault(cur, [])
             post_idx = 0
             last_was_post = False
@@ -291,7 +297,10 @@ def _count_obligations(air, gen):
             if label.startswith('precondition'):
                 cal = callee.split('!')[-1].rstrip('.').split('.')[-1] if callee else ''
                 cal = re.sub(r'^impl&%\d+\.', '', cal)
-                reqs = [c for c in clauses.get(cal, []) if c[0] == 'requires']
+                reqs = []
+                for ck, cl in clauses.items():
+                    if ck == cal or ck.endswith('::' + cal):
+                        reqs += [c for c in cl if c[0] == 'requires']
                 tg = []
                 for c in reqs:
                     for t in (c[1] or []):
@@ -303,5 +312,6 @@ def _count_obligations(air, gen):
                 tags, name = (tg or ['C11']), 'precondition of ' + (cal or 'callee')
             else:
                 tags, name = _classify_builtin(label)
-        res[cur].append(dict(label=label, tags=tags or ['C01'], name=name or ''))
+        short = label.replace(' not satisfied', '').replace('possible ', '')
+        res[cur].append(dict(label=short, tags=tags or ['C01'], name=name or ''))
     return res
